@@ -38,11 +38,13 @@ NAMES = ('a b', 'a-b', 'ñu', 'Cafe\u0301', '\u212b', 'x\u2028y')
 
 
 def _level1():
-    return [('attr', a) for a in ATTRS] + [('name', n) for n in NAMES]
+    # the abstract flag is a property of the feature, not of its configurations: an abstract feature is
+    # selected and deselected like any other one, so its clafer has to be instantiable
+    return [('attr', a) for a in ATTRS] + [('name', n) for n in NAMES] + [('abstract', None)]
 
 
 def _level2():
-    return [('attr', ATTRS[0]), ('attr', ATTRS[2]), ('attr', ATTRS[3]), ('attr', ATTRS[4]), ('attr', ATTRS[5]), ('name', 'a b')]
+    return [('attr', ATTRS[0]), ('attr', ATTRS[2]), ('attr', ATTRS[3]), ('attr', ATTRS[4]), ('attr', ATTRS[5]), ('name', 'a b'), ('abstract', None)]
 
 
 def cases(tier, seed):
@@ -134,6 +136,7 @@ def check(case):
     out = []
     try:
         text = ClaferWriter(engine.tmppath('m.txt'), fm).transform()
+        engine.note(text)
         engine.tick()
     except Exception as exc:  # noqa: BLE001
         return [Fail('write-raises:%s' % type(exc).__name__, str(exc)[:200])]
